@@ -45,6 +45,7 @@ pub struct Stats {
     pub unfinished: u64,
     pub scenarios: BTreeMap<String, u64>,
     pub flags: BTreeMap<String, u64>,
+    pub states: std::collections::BTreeSet<u64>,
     pub samples: Vec<(u64, Value)>,
     pub transcript_xor: u64,
     pub transcript_sum: u64,
@@ -76,6 +77,7 @@ impl Stats {
             *self.flags.entry(k).or_insert(0) += v;
         }
         self.samples.extend(o.samples);
+        self.states.extend(o.states);
         self.transcript_xor ^= o.transcript_xor;
         self.transcript_sum = self.transcript_sum.wrapping_add(o.transcript_sum);
     }
@@ -153,6 +155,7 @@ fn worker(cfg: &BatchCfg, next: &AtomicU64, end: u64, skip_pass: bool, finds: &M
             for f in &out.flags {
                 *st.flags.entry(f.to_string()).or_insert(0) += 1;
             }
+            st.states.extend(out.states.iter().copied());
             *st.scenarios.entry(case.scenario().to_string()).or_insert(0) += 1;
             if let Some(a) = &out.aborted {
                 *st.aborted.entry(abort_key(a)).or_insert(0) += 1;
@@ -488,6 +491,24 @@ pub fn replay_seed(v: &Value, path: &Path) -> i32 {
     }
 }
 
+/// Rare conditions a batch of this property is expected to reach; one that is
+/// never hit is listed in the evidence as a weakness of the workload.
+fn expected_probes(prop: &str) -> Vec<&'static str> {
+    let dec = ["malformed_1_1", "malformed_1_2", "malformed_2_2", "malformed_3_3", "malformed_4_0", "outputfull_with_state_pending", "zero_read_with_state_pending"];
+    let bom = ["withheld_bom_lookalike_replayed", "withheld_bom_lookalike_replayed_at_min_sink"];
+    let enc = ["surrogate_pair_at_output_limit", "ncr_then_outputfull", "escape_at_buffer_end", "outputfull_in_non_ascii_state"];
+    match prop {
+        "C02" | "C19" => dec.iter().chain(bom.iter()).copied().collect(),
+        "C10" => dec.iter().chain(bom.iter()).copied().collect(),
+        "C04" | "C12" => enc.to_vec(),
+        "C05" => dec.iter().chain(bom.iter()).chain(["reuse_after_finish_panicked"].iter()).copied().collect(),
+        "C06" | "C08" | "C18" | "C17" => dec.iter().chain(bom.iter()).chain(enc.iter()).copied().collect(),
+        "C07" => dec.iter().chain(enc.iter()).chain(["query_outputfull_excused_by_unmappable"].iter()).copied().collect(),
+        "C09" => ["outputfull_with_state_pending", "ncr_then_outputfull", "surrogate_pair_at_output_limit"].to_vec(),
+        _ => Vec::new(),
+    }
+}
+
 pub struct BatchResult {
     pub violations: usize,
     pub known_hits: usize,
@@ -651,7 +672,9 @@ pub fn run_batch(cfg: &BatchCfg) -> BatchResult {
             "converter_calls": stats.calls,
             "input_units": stats.units,
             "faults_fired": stats.faults.to_json(),
-            "buggify": stats.flags,
+            "buggify_and_stream_faults": stats.flags,
+            "distinct_decoder_states_by_public_proxy": stats.states.len(),
+            "probes_stuck_at_zero": expected_probes(prop).into_iter().filter(|p| !stats.probes.contains_key(*p)).collect::<Vec<_>>(),
             "rare_probes": stats.probes,
             "scenarios": stats.scenarios,
             "aborted_runs": stats.aborted,
